@@ -19,8 +19,8 @@ from lib.kvlib import *
 PROP = "C05"
 MANIFEST = dict(
     level="model_checking", design_ref="DESIGN.md 8 (C05), 7 (Clock), Appendix A.4",
-    technique="TLA+ model of the clock (TLC: all command histories x callback/chunk partitions, reader/publisher interleavings at word granularity) against an exact reference; TLC schedules replayed on the real clock through cfg(kira_verif) yield points; TLC trace validation against P_C05; two known findings matched by signature",
-    text="TLC checks that for every history of start/pause/stop/speed commands (immediate, or delayed by some frames of audio time that pass whether or not the clock ticks) and every partition of time into callbacks and internal chunks the published time equals speed x running time at a chunk boundary, that a sound scheduled for a clock time starts in the chunk during which the ticking clock reaches it (never late, never while paused or short), and explores every interleaving of a two-word time() read with the audio thread's two-word publication. Generated schedules are forced onto the real clock; every recorded session is validated by TLC against the same reference.",
+    technique="TLA+ model of the clock (TLC: all command histories x callback/chunk partitions, reader/publisher interleavings at word granularity) against an exact reference; TLC schedules replayed on the real clock through cfg(kira_verif) yield points; TLC trace validation against P_C05; two known findings matched by signature + ClockCancel model + scheduled-start and pick-up schedules judged by TLC (P_C05C, P_C05S)",
+    text="TLC checks that for every history of start/pause/stop/speed commands (immediate, or delayed by some frames of audio time that pass whether or not the clock ticks) and every partition of time into callbacks and internal chunks the published time equals speed x running time at a chunk boundary, that a sound scheduled for a clock time starts in the chunk during which the ticking clock reaches it (never late, never while paused or short), and explores every interleaving of a two-word time() read with the audio thread's two-word publication. Generated schedules are forced onto the real clock; every recorded session is validated by TLC against the same reference. Added families: ClockCancel.tla (three clocks in adjacent slots, every history of handle drops and callbacks; sounds waiting on a clock that goes away are cancelled, others are not disturbed; replayed and compared callback by callback); scheduled starts (P_C05S): every kind of thing that takes a start time - sound start, resume_at, sound / track / main-track volume tween, listener and emitter position tween, tweener, set_speed of another clock - scheduled for a tick of a clock ticking once per buffer, also on a clock that has passed the tick and is paused, and a clock + scheduled sound created while the audio thread is between two drains of its new-resource rings; start / pause written while a callback is running (Clock.tla CmdMid).",
     note="Speeds and times are dyadic (1/4 tick units) so comparisons are exact. Speed changes in the clock model are zero-length tweens, immediate or delayed by a number of frames; tweens of non-zero length (1-7 buffers, both units on either side) are observed buffer by buffer and judged by TLC against the reference integral with a tolerance of a few 1e-4 ticks (P_C05T) (the code integrates them stepwise per chunk; the statement gives no tolerance). A stop() overlapping a callback's command reads is explored at the granularity of its two command writes (cmd.w / cmd.r yield points); a stop() overlapping a time() read (second writer of the two published words) is not. Known findings D10 (torn read) and D11 (own-time speed change never fires) are listed in known_findings.json; the cancellation of sounds waiting for a clock that goes away is a model of its own (ClockCancel.tla: three clocks in adjacent slots, every history of handle drops and callbacks, replayed).")
 
 
